@@ -225,8 +225,8 @@ def r3(ctx):
     f = p.func(f"{SCHED}.notify_status")
     rb = [n for n in f.body_nodes() if isinstance(n, ast.If) and isinstance(n.test, ast.Compare) and "Status.ROLLBACK" in unparse(n.test)
           and unparse(n.test.left) == "status" and isinstance(n.test.ops[0], ast.Eq)]
-    ctx.require(len(rb) == 1, "C11.R3: ROLLBACK branch not found in notify_status")
-    body = rb[0]
+    ctx.require(len(rb) >= 1, "C11.R3: ROLLBACK branch not found in notify_status")
+    body = next((b for b in rb if any(isinstance(c, ast.Call) and isinstance(c.func, ast.Attribute) and c.func.attr in ("remove", "discard") for c in ast.walk(b))), rb[-1])
     rem = [c for c in ast.walk(body) if isinstance(c, ast.Call) and isinstance(c.func, ast.Attribute) and c.func.attr in ("remove", "discard")
            and root_attr(c.func.value) == "location_allocations" and unparse(c.func.value).endswith(".jobs")]
     loop = [n for n in ast.walk(body) if isinstance(n, ast.For) and unparse(n.iter).endswith(".locations")]
